@@ -1376,6 +1376,28 @@ pub fn check_session(cap: &Capture, scn: &DebugScenario, report: &mut Report) ->
         }
     }
 
+    // A session that dies in a panic while everything it has read are execution-control and
+    // inspection commands is not transparent, however the script would have gone on: the same
+    // commands followed by end of input are a script C09 quantifies over
+    if let (End::Panic(_), false) = (&real.end, matches!(plain.end, End::Panic(_))) {
+        let consumed = idx.min(script.len());
+        if consumed > 0 && script[..consumed].iter().all(|i| i.cmd.is_transparent()) && !out.violations.iter().any(|v| v.prop == "C09") {
+            let last = script[consumed - 1].cmd.kind_name();
+            push(
+                &mut out,
+                "C09",
+                format!("C09/{}/{}", last, end_key(&real.end)),
+                format!(
+                    "after {} transparent commands (last: `{}`) the session ended with {}; the plain run ends with {}",
+                    consumed,
+                    script[consumed - 1].render(),
+                    real.end.label(),
+                    plain.end.label()
+                ),
+            );
+        }
+    }
+
     // Signature and fingerprint
     sig.extend_from_slice(real.end.label().as_bytes());
     sig.push(match scn.transport {
